@@ -405,6 +405,19 @@ def _is_regular_file(file: Any) -> bool:
 _EXTERNAL_TENSOR_COPY_CHUNK_SIZE = 1024 * 1024
 
 
+def _write_array_bytes(array: np.ndarray, file) -> None:
+    """Write the bytes of ``array`` through ``file.write`` without copying them.
+
+    ``array.tofile(file)`` must not be used for this: numpy writes through a private
+    stdio stream on a duplicate of the descriptor and ignores a failing flush when it
+    closes that stream, so a write error (disk full, file size limit) on an array that
+    fits into the stdio buffer is lost and the file is silently left short. Writes
+    through the file object report such errors from ``write``, ``flush`` or ``close``.
+    """
+    array = np.ascontiguousarray(array)
+    file.write(array.reshape(-1).view(np.uint8).data)
+
+
 def _create_np_array_for_byte_representation(tensor: Tensor) -> np.ndarray:
     """Create a numpy array for the byte representation of the tensor.
 
@@ -610,7 +623,7 @@ class Tensor(TensorBase, _protocols.TensorProtocol, Generic[TArrayCompatible]): 
         if isinstance(self._raw, np.ndarray) and _supports_fileno(file):
             # This is a duplication of tobytes() for handling special cases
             array = _create_np_array_for_byte_representation(self)
-            array.tofile(file)
+            _write_array_bytes(array, file)
         else:
             file.write(self.tobytes())
 
@@ -1419,7 +1432,7 @@ class PackedTensor(TensorBase, _protocols.TensorProtocol, Generic[TArrayCompatib
             array = self.numpy_packed()
             if not _IS_LITTLE_ENDIAN:
                 array = array.astype(array.dtype.newbyteorder("<"))
-            array.tofile(file)
+            _write_array_bytes(array, file)
         else:
             file.write(self.tobytes())
 
